@@ -216,6 +216,7 @@ class Sys:
             out.append(("attr_scalar", 0))
             out.append(("attr_shared",))
             out.append(("attr_link",))
+            out.append(("attr_tuple_cycle",))
         return out
 
     def apply(self, w, op):
@@ -241,6 +242,13 @@ class Sys:
             w.v[0].sh = shared
             w.v[1].sh = shared
             w.v[1].d = {"k": shared}
+            return ("ret", None)
+        if k == "attr_tuple_cycle":
+            # a tuple that takes part in a cycle through a mutable: l = []; t = (l,); l.append(t)
+            lst = []
+            tup = (lst,)
+            lst.append(tup)
+            w.v[0].cyc = tup
             return ("ret", None)
         if k == "attr_link":
             if not w.l:
@@ -269,6 +277,22 @@ class Sys:
         return state_roundtrips(w)
 
 
+def attr_kinds(w):
+    """which kinds of runtime attributes the state carries (part of the fingerprint: identifies the input)"""
+    kinds = set()
+    for v in w.v:
+        d = vars(v)
+        if "tag" in d:
+            kinds.add("scalar")
+        if "sh" in d:
+            kinds.add("shared-list")
+        if "cyc" in d:
+            kinds.add("tuple-cycle")
+    if any("peer" in vars(l) for l in w.l):
+        kinds.add("link-attr")
+    return "+".join(sorted(kinds)) or "none"
+
+
 def state_roundtrips(w):
     out = []
     for rname, root in roots_of(w):
@@ -278,7 +302,8 @@ def state_roundtrips(w):
                     bad = roundtrip_check(root, proto, loader, via_file, w.flag)
                     if bad:
                         memo = "warm" if any(vars(v).get("_Vertex__qa_nb_cache") for v in w.v) else "cold"
-                        fp = f"same-process|root={rname}|caching={'on' if w.flag else 'off'}|memo={memo}|{bad}"
+                        fp = (f"same-process|root={rname}|caching={'on' if w.flag else 'off'}|memo={memo}|"
+                              f"attrs={attr_kinds(w)}|{bad}")
                         out.append((fp, {"root": rname, "protocol": proto, "loader": loader, "via_file": via_file}))
     Vertex.NEIGHBOR_CACHING = w.flag
     return out
@@ -322,6 +347,8 @@ flag = sys.argv[1] == "on"
 Vertex.NEIGHBOR_CACHING = flag
 out = []
 for line in sys.stdin:
+    if not line.strip():
+        continue
     try:
         obj = pickle.loads(base64.b64decode(line))
         form, nodes = c10.iso_form(obj)
@@ -349,7 +376,7 @@ def fresh_leg(histories, spec, verbose=False):
                 c = pickle.loads(data)
             except Exception as e:  # noqa: BLE001 - the same-process leg reports these; nothing to send
                 Vertex.NEIGHBOR_CACHING = w.flag
-                early.append((h, f"same-process|dumps-or-loads-raised-{type(e).__name__}"))
+                early.append((h, f"dump-for-fresh-interpreter|attrs={attr_kinds(w)}|dumps-or-loads-raised-{type(e).__name__}"))
                 continue
             blobs.append(base64.b64encode(data).decode())
             cform, cnodes = iso_form(c)
@@ -359,7 +386,7 @@ def fresh_leg(histories, spec, verbose=False):
             meta.append((h, proto))
     Vertex.NEIGHBOR_CACHING = False
     bad = list(early)
-    for flag in ("off", "on"):
+    for flag in (("off", "on") if blobs else ()):
         p = subprocess.run([sys.executable, "-c", _CHILD, flag], input="\n".join(blobs) + "\n",
                            capture_output=True, text=True, env=dict(os.environ))
         if p.returncode != 0:
